@@ -435,3 +435,326 @@ Proof.
     + repeat split; [lra|]. apply Rdiv_lt_0_compat; lra.
     + field. repeat split; nra.
 Qed.
+
+Lemma pow_derive (k : nat) a : is_derive (fun t => t ^ k) a (INR k * a ^ pred k).
+Proof. auto_derive; [exact I|ring]. Qed.
+
+Lemma powerRZ_derive (n : Z) a :
+  (0 <= n)%Z \/ a <> 0 -> is_derive (fun t => powerRZ t n) a (IZR n * powerRZ a (n - 1)).
+Proof.
+  intros H. destruct n as [|p|p].
+  - simpl. auto_derive; [exact I|ring].
+  - apply is_derive_ext with (fun t => t ^ Pos.to_nat p); [reflexivity|].
+    eapply is_derive_eq; [apply pow_derive|].
+    rewrite INR_IZR_INZ, positive_nat_Z. f_equal.
+    rewrite pow_powerRZ. f_equal. lia.
+  - assert (Ha : a <> 0) by (destruct H as [H|H]; [lia|exact H]).
+    apply is_derive_ext with (fun t => / t ^ Pos.to_nat p); [reflexivity|].
+    replace (Z.neg p - 1)%Z with (Z.neg (Pos.succ p)) by lia.
+    change (IZR (Z.neg p)) with (- IZR (Z.pos p)).
+    rewrite <- positive_nat_Z, <- INR_IZR_INZ. simpl powerRZ.
+    rewrite Pos2Nat.inj_succ.
+    destruct (Pos2Nat.is_succ p) as [k Hk]. rewrite Hk.
+    assert (Hak : a ^ k <> 0) by (apply pow_nonzero; exact Ha).
+    eapply is_derive_eq.
+    + apply (is_derive_inv (fun t => t ^ S k) a); [apply pow_derive|].
+      apply pow_nonzero; exact Ha.
+    + simpl pred. rewrite S_INR. simpl pow. field. split; assumption.
+Qed.
+
+Lemma powQ_derive q a :
+  powQ_reg a q -> is_derive (fun t => powQ t q) a (Q2R q * powQ a (q - 1)).
+Proof.
+  unfold powQ_reg, powQ. rewrite Qis_int_minus1, Qfloor_minus1.
+  destruct (Qis_int q) eqn:Hi; intros H.
+  - rewrite (Qint_Q2R q Hi). apply powerRZ_derive, H.
+  - apply is_derive_Reals. rewrite Q2R_minus, Q2R_1'.
+    apply derivable_pt_lim_power, H.
+Qed.
+
+Lemma Rpower_derive (f g : R -> R) (x df dg : R) :
+  is_derive f x df -> is_derive g x dg -> 0 < f x ->
+  is_derive (fun t => Rpower (f t) (g t)) x
+            (Rpower (f x) (g x) * (dg * ln (f x) + g x * df / f x)).
+Proof.
+  intros Hf Hg Hpos. unfold Rpower.
+  eapply is_derive_eq.
+  - apply (is_derive_comp_R exp (fun t => g t * ln (f t))); [apply is_derive_exp|].
+    apply Derive.is_derive_mult; [exact Hg|].
+    apply (is_derive_comp_R ln f); [apply is_derive_ln, Hpos|exact Hf].
+  - cbv beta. field. lra.
+Qed.
+
+(* ------------------------------------------------------------------ *)
+(** * R-typed wrappers of Coquelicot's rules *)
+
+Lemma is_derive_const_R (c x : R) : is_derive (fun _ : R => c) x 0.
+Proof. exact (is_derive_const c x). Qed.
+
+Lemma is_derive_id_R (x : R) : is_derive (fun t : R => t) x 1.
+Proof. exact (is_derive_id x). Qed.
+
+Lemma is_derive_plus_R (f g : R -> R) (x df dg : R) :
+  is_derive f x df -> is_derive g x dg -> is_derive (fun t => f t + g t) x (df + dg).
+Proof. intros Hf Hg. exact (is_derive_plus f g x df dg Hf Hg). Qed.
+
+Lemma is_derive_minus_R (f g : R -> R) (x df dg : R) :
+  is_derive f x df -> is_derive g x dg -> is_derive (fun t => f t - g t) x (df - dg).
+Proof. intros Hf Hg. exact (is_derive_minus f g x df dg Hf Hg). Qed.
+
+Lemma is_derive_mult_R (f g : R -> R) (x df dg : R) :
+  is_derive f x df -> is_derive g x dg ->
+  is_derive (fun t => f t * g t) x (df * g x + f x * dg).
+Proof. intros Hf Hg. exact (Derive.is_derive_mult f g x df dg Hf Hg). Qed.
+
+(* ------------------------------------------------------------------ *)
+(** * Sums over lists *)
+
+Lemma sumR_derive {A} (l : list A) (f : A -> R -> R) (d : A -> R) (x : R) :
+  Forall (fun a => is_derive (f a) x (d a)) l ->
+  is_derive (fun t => sumR (map (fun a => f a t) l)) x (sumR (map d l)).
+Proof.
+  induction 1 as [|a l Ha Hl IH]; simpl.
+  - apply is_derive_const_R.
+  - apply is_derive_plus_R; assumption.
+Qed.
+
+Lemma dotR_const_derive {B} (cs : list R) (lb : list B) (g : B -> R -> R)
+      (dg : B -> R) (x : R) :
+  Forall (fun b => is_derive (g b) x (dg b)) lb ->
+  is_derive (fun t => dotR cs (map (fun b => g b t) lb)) x (dotR cs (map dg lb)).
+Proof.
+  intros H. revert cs. induction H as [|b lb Hb Hl IH]; intros [|c cs]; simpl;
+    try apply is_derive_const_R.
+  apply is_derive_plus_R; [|apply IH]. apply is_derive_scal, Hb.
+Qed.
+
+Lemma dotR_derive {A B} (la : list A) (lb : list B) (f : A -> R -> R) (g : B -> R -> R)
+      (df : A -> R) (dg : B -> R) (x : R) :
+  Forall (fun a => is_derive (f a) x (df a)) la ->
+  Forall (fun b => is_derive (g b) x (dg b)) lb ->
+  is_derive (fun t => dotR (map (fun a => f a t) la) (map (fun b => g b t) lb)) x
+            (dotR (map df la) (map (fun b => g b x) lb) +
+             dotR (map (fun a => f a x) la) (map dg lb)).
+Proof.
+  intros Ha. revert lb. induction Ha as [|a la Ha Hla IH]; intros lb Hb.
+  - simpl. eapply is_derive_eq; [apply is_derive_const_R|ring].
+  - destruct Hb as [|b lb Hb Hlb]; simpl.
+    + eapply is_derive_eq; [apply is_derive_const_R|ring].
+    + eapply is_derive_eq.
+      * apply is_derive_plus_R; [apply is_derive_mult_R; [exact Ha|exact Hb]|].
+        apply IH, Hlb.
+      * ring.
+Qed.
+
+Lemma dotR_map_same {A} (f g : A -> R) (l : list A) :
+  dotR (map f l) (map g l) = sumR (map (fun a => f a * g a) l).
+Proof. induction l as [|a l IH]; simpl; [reflexivity|]. now rewrite IH. Qed.
+
+Lemma sumR_scal {A} (k : R) (h : A -> R) (l : list A) :
+  sumR (map (fun a => k * h a) l) = k * sumR (map h l).
+Proof. induction l as [|a l IH]; simpl; [ring|]. rewrite IH. ring. Qed.
+
+Lemma sumR_plus {A} (h1 h2 : A -> R) (l : list A) :
+  sumR (map (fun a => h1 a + h2 a) l) = sumR (map h1 l) + sumR (map h2 l).
+Proof. induction l as [|a l IH]; simpl; [ring|]. rewrite IH. ring. Qed.
+
+Lemma sumR_ext_in {A} (h1 h2 : A -> R) (l : list A) :
+  (forall a, In a l -> h1 a = h2 a) -> sumR (map h1 l) = sumR (map h2 l).
+Proof. intros H. f_equal. apply map_ext_in, H. Qed.
+
+Lemma sumR_zero {A} (h : A -> R) (l : list A) :
+  (forall a, In a l -> h a = 0) -> sumR (map h l) = 0.
+Proof.
+  induction l as [|a l IH]; simpl; intros H; [reflexivity|].
+  rewrite H by (left; reflexivity). rewrite IH; [ring|]. intros; apply H; now right.
+Qed.
+
+(* ------------------------------------------------------------------ *)
+(** * Names: membership, distinctness, indicator sums *)
+
+Lemma mem_name_In x xs : mem_name x xs = true <-> In x xs.
+Proof.
+  unfold mem_name. rewrite existsb_exists. split.
+  - intros [y [Hy E]]. apply String.eqb_eq in E. now subst.
+  - intros H. exists x. split; [exact H|apply String.eqb_refl].
+Qed.
+
+Lemma mem_name_false x xs : mem_name x xs = false <-> ~ In x xs.
+Proof.
+  rewrite <- mem_name_In. destruct (mem_name x xs); split; intros H; try discriminate;
+    try reflexivity; try (intros H'; discriminate). exfalso; apply H; reflexivity.
+Qed.
+
+Lemma NoDupb_NoDup xs : NoDupb xs = true -> NoDup xs.
+Proof.
+  induction xs as [|x xs IH]; simpl; intros H; [constructor|].
+  apply andb_true_iff in H. destruct H as [H1 H2]. constructor.
+  - apply negb_true_iff in H1. apply (proj1 (mem_name_false x xs)). exact H1.
+  - apply IH, H2.
+Qed.
+
+Definition ind (v y : string) : R := if String.eqb y v then 1 else 0.
+
+Lemma sum_indicator (g : string -> R) v xs :
+  NoDup xs ->
+  sumR (map (fun y => g y * ind v y) xs) = if mem_name v xs then g v else 0.
+Proof.
+  induction 1 as [|y xs Hy Hxs IH]; simpl; [reflexivity|].
+  rewrite IH. unfold ind at 1. rewrite (String.eqb_sym v y).
+  destruct (String.eqb y v) eqn:E; simpl.
+  - apply String.eqb_eq in E. subst y.
+    apply mem_name_false in Hy. rewrite Hy. ring.
+  - ring.
+Qed.
+
+Lemma is_var_names es : forallb is_var es = true -> es = map Var (vec_names es).
+Proof.
+  induction es as [|e es IH]; simpl; intros H; [reflexivity|].
+  apply andb_true_iff in H. destruct H as [H1 H2].
+  destruct e; try discriminate. simpl. f_equal. apply IH, H2.
+Qed.
+
+Lemma vec_names_map_Var xs : vec_names (map Var xs) = xs.
+Proof. induction xs as [|x xs IH]; simpl; [reflexivity|]. now rewrite IH. Qed.
+
+Lemma list_eqb_string_eq (l1 l2 : list string) :
+  list_eqb String.eqb l1 l2 = true -> l1 = l2.
+Proof.
+  revert l2. induction l1 as [|a l1 IH]; intros [|b l2]; simpl; intros H;
+    try discriminate; [reflexivity|].
+  apply andb_true_iff in H. destruct H as [H1 H2].
+  apply String.eqb_eq in H1. subst. f_equal. apply IH, H2.
+Qed.
+
+(* ------------------------------------------------------------------ *)
+(** * Indexed sums (used for the quadratic form) *)
+
+Definition bigsum (n : nat) (f : nat -> R) : R := sumR (map f (seq 0 n)).
+
+Lemma bigsum_ext n f g :
+  (forall i, (i < n)%nat -> f i = g i) -> bigsum n f = bigsum n g.
+Proof.
+  intros H. apply sumR_ext_in. intros i Hi. apply in_seq in Hi. apply H. lia.
+Qed.
+
+Lemma bigsum_plus n f g :
+  bigsum n (fun i => f i + g i) = bigsum n f + bigsum n g.
+Proof. apply sumR_plus. Qed.
+
+Lemma bigsum_scal n k f : bigsum n (fun i => k * f i) = k * bigsum n f.
+Proof. apply sumR_scal. Qed.
+
+Lemma bigsum_zero n f : (forall i, (i < n)%nat -> f i = 0) -> bigsum n f = 0.
+Proof. intros H. apply sumR_zero. intros i Hi. apply in_seq in Hi. apply H. lia. Qed.
+
+Lemma bigsum_S_shift n f : bigsum (S n) f = f 0%nat + bigsum n (fun i => f (S i)).
+Proof.
+  unfold bigsum. simpl. f_equal. rewrite <- seq_shift, map_map. reflexivity.
+Qed.
+
+Lemma sumR_app l1 l2 : sumR (l1 ++ l2) = sumR l1 + sumR l2.
+Proof. induction l1 as [|a l1 IH]; simpl; [ring|]. rewrite IH. ring. Qed.
+
+Lemma bigsum_S_last n f : bigsum (S n) f = bigsum n f + f n.
+Proof.
+  unfold bigsum. rewrite seq_S, map_app, sumR_app. simpl. ring.
+Qed.
+
+Lemma sumR_swap {A B} (f : A -> B -> R) (la : list A) (lb : list B) :
+  sumR (map (fun a => sumR (map (fun b => f a b) lb)) la) =
+  sumR (map (fun b => sumR (map (fun a => f a b) la)) lb).
+Proof.
+  induction la as [|a la IH]; simpl.
+  - symmetry. apply sumR_zero. reflexivity.
+  - rewrite IH. symmetry. apply sumR_plus.
+Qed.
+
+Lemma bigsum_swap n m (f : nat -> nat -> R) :
+  bigsum n (fun i => bigsum m (fun j => f i j)) =
+  bigsum m (fun j => bigsum n (fun i => f i j)).
+Proof. apply sumR_swap. Qed.
+
+Lemma bigsum_onehot n i (h : nat -> R) :
+  (i < n)%nat ->
+  bigsum n (fun k => h k * (if Nat.eqb k i then 1 else 0)) = h i.
+Proof.
+  induction n as [|n IH]; intros Hi; [lia|].
+  rewrite bigsum_S_last. destruct (Nat.eq_dec i n) as [->|Hne].
+  - rewrite Nat.eqb_refl. rewrite bigsum_zero; [ring|].
+    intros k Hk. replace (Nat.eqb k n) with false; [ring|].
+    symmetry. apply Nat.eqb_neq. lia.
+  - rewrite IH by lia. replace (Nat.eqb n i) with false; [ring|].
+    symmetry. apply Nat.eqb_neq. lia.
+Qed.
+
+Lemma nth_nil_R i : nth i (@nil R) 0 = 0.
+Proof. destruct i; reflexivity. Qed.
+
+Lemma dotR_bigsum_l a b :
+  dotR a b = bigsum (length a) (fun i => nth i a 0 * nth i b 0).
+Proof.
+  revert b. induction a as [|x a IH]; intros b; simpl.
+  - reflexivity.
+  - rewrite bigsum_S_shift. destruct b as [|y b]; simpl.
+    + rewrite bigsum_zero; [ring|]. intros i _. destruct i; simpl; ring.
+    + now rewrite IH.
+Qed.
+
+Lemma dotR_comm a b : dotR a b = dotR b a.
+Proof.
+  revert b. induction a as [|x a IH]; intros [|y b]; simpl; try reflexivity.
+  rewrite IH. ring.
+Qed.
+
+Lemma dotR_bigsum_r a b :
+  dotR a b = bigsum (length b) (fun i => nth i a 0 * nth i b 0).
+Proof.
+  rewrite dotR_comm, dotR_bigsum_l. apply bigsum_ext. intros; ring.
+Qed.
+
+Lemma nth_map_Q2R j row : nth j (map Q2R row) 0 = Q2R (nth j row 0%Q).
+Proof.
+  revert j. induction row as [|c row IH]; intros [|j]; simpl;
+    try (symmetry; apply Q2R_0'); try reflexivity. apply IH.
+Qed.
+
+Lemma nth_map_seq {A} (h : nat -> A) n j d :
+  (j < n)%nat -> nth j (map h (seq 0 n)) d = h j.
+Proof.
+  intros Hj. rewrite (nth_indep _ d (h 0%nat)) by (rewrite map_length, seq_length; exact Hj).
+  rewrite map_nth, seq_nth by exact Hj. reflexivity.
+Qed.
+
+(* entry (i,j) of the matrix, 0 outside *)
+Definition qa (m : list (list Q)) (i j : nat) : R := Q2R (nth j (nth i m []) 0%Q).
+
+Lemma quad_bigsum m (X Y : list R) n :
+  length X = n -> length Y = n ->
+  dotR X (map (fun row => matvec_row row Y) m) =
+  bigsum n (fun i => nth i X 0 * bigsum n (fun j => qa m i j * nth j Y 0)).
+Proof.
+  intros HX HY. rewrite dotR_bigsum_l, HX. apply bigsum_ext. intros i Hi. f_equal.
+  change 0 with (matvec_row [] Y) at 1.
+  rewrite (map_nth (fun row => matvec_row row Y)).
+  unfold matvec_row. rewrite dotR_bigsum_r, HY. apply bigsum_ext. intros j Hj.
+  rewrite nth_map_Q2R. reflexivity.
+Qed.
+
+Lemma qform_identity m (X DX : list R) n :
+  length X = n -> length DX = n ->
+  dotR DX (map (fun row => matvec_row row X) m) +
+  dotR X (map (fun row => matvec_row row DX) m) =
+  bigsum n (fun i => bigsum n (fun j => (qa m i j + qa m j i) * nth j X 0) * nth i DX 0).
+Proof.
+  intros HX HD. rewrite (quad_bigsum m DX X n HD HX), (quad_bigsum m X DX n HX HD).
+  transitivity
+    (bigsum n (fun i => nth i DX 0 * bigsum n (fun j => qa m i j * nth j X 0)) +
+     bigsum n (fun i => bigsum n (fun j => qa m j i * nth j X 0 * nth i DX 0))).
+  - f_equal. rewrite bigsum_swap. apply bigsum_ext. intros i Hi.
+    rewrite <- bigsum_scal. apply bigsum_ext. intros j Hj. ring.
+  - rewrite <- bigsum_plus. apply bigsum_ext. intros i Hi.
+    rewrite <- bigsum_scal, <- bigsum_plus.
+    rewrite (Rmult_comm (bigsum n _)), <- bigsum_scal.
+    apply bigsum_ext. intros j Hj. ring.
+Qed.
